@@ -154,6 +154,9 @@ type Scenario struct {
 	RawRoute bool `json:",omitempty"`
 	// SlowLog: the log sink takes 150 ms for the line logged during start-up (not on the abstract case line)
 	SlowLog bool `json:",omitempty"`
+	// Warm: the App has been through a Start before the observed one (1: failed on a taken port, 2: complete run
+	// stopped when ready); not on the abstract case line
+	Warm    int `json:",omitempty"`
 	Metrics bool
 	Tracing bool
 	Listen  int
@@ -492,12 +495,15 @@ type runner struct {
 
 	reqs []*reqState
 
-	hupRound  atomic.Int64
-	roundDone []chan struct{}
-	roundRes  []int // 0 ok 1 err 9 panic 2 n/a
-	pairGID   atomic.Int64
-	pairIn    atomic.Bool
-	pairDone  chan struct{}
+	hupRound   atomic.Int64
+	warmReady  atomic.Int64                       // OnReady hooks of the warm-up run that have run (they are asynchronous)
+	warm       atomic.Bool                        // the warm-up Start is running: hooks are silent no-ops
+	warmCancel atomic.Pointer[context.CancelFunc] // stops the complete warm-up run once it is ready
+	roundDone  []chan struct{}
+	roundRes   []int // 0 ok 1 err 9 panic 2 n/a
+	pairGID    atomic.Int64
+	pairIn     atomic.Bool
+	pairDone   chan struct{}
 
 	logBuf lockedBuf // what the application's logger has written
 
@@ -899,6 +905,9 @@ func (r *runner) behOf(round, i int) int {
 
 func (r *runner) reloadHook(i int) func(context.Context) error {
 	return func(ctx context.Context) error {
+		if r.warm.Load() {
+			return nil
+		}
 		round := int(r.hupRound.Load())
 		prog := false
 		if v, ok := ctx.Value(roundKey{}).(int); ok {
@@ -1126,7 +1135,54 @@ func (r *runner) hijacked(c *app.Context, k int, q *reqState) {
 }
 
 // start calls the entry point of the scenario.
-func (r *runner) start() error {
+func (r *runner) start() error { return r.startCtx(r.ctx) }
+
+// warmup (Scenario.Warm): the same App has been through a Start before the run that is observed — 1: an attempt that
+// failed because the port was taken (abortStartup ran), 2: a complete run, stopped as soon as it was ready (the whole
+// shutdown sequence ran). During the warm-up every hook of the harness is a silent no-op.
+func (r *runner) warmup() {
+	r.warm.Store(true)
+	defer r.warm.Store(false)
+	switch r.sc.Warm {
+	case 1:
+		ln, err := net.Listen("tcp", fmt.Sprintf("127.0.0.1:%d", r.appPort))
+		if err != nil {
+			r.discard = "warm-up blocker: " + err.Error()
+			return
+		}
+		ctx, cancel := context.WithCancel(context.Background())
+		err = r.startCtx(ctx)
+		cancel()
+		ln.Close()
+		if err == nil {
+			r.discard = "warm-up: Start succeeded on a taken port"
+		}
+	case 2:
+		ctx, cancel := context.WithCancel(context.Background())
+		r.warmCancel.Store(&cancel)
+		done := make(chan error, 1)
+		go func() { done <- r.startCtx(ctx) }()
+		select {
+		case err := <-done:
+			if err != nil {
+				r.discard = "warm-up run failed: " + err.Error()
+			}
+		case <-time.After(8 * time.Second):
+			r.discard = "warm-up run did not end"
+		}
+		cancel()
+		// the OnReady hooks are fire-and-forget goroutines: every one of the warm-up run must have run (silently)
+		// before the observed run begins
+		for dl := time.Now().Add(3 * time.Second); r.warmReady.Load() < int64(len(r.sc.Readies)+1); time.Sleep(200 * time.Microsecond) {
+			if time.Now().After(dl) {
+				r.discard = "OnReady hooks of the warm-up run still outstanding"
+				break
+			}
+		}
+	}
+}
+
+func (r *runner) startCtx(ctx context.Context) error {
 	switch r.sc.Proto {
 	case pTLS:
 		p, err := pki()
@@ -1135,18 +1191,18 @@ func (r *runner) start() error {
 			return err
 		}
 		if r.sc.Listen == lCert {
-			return r.a.StartTLS(r.ctx, filepath.Join(p.dir, "missing.crt"), p.keyFile)
+			return r.a.StartTLS(ctx, filepath.Join(p.dir, "missing.crt"), p.keyFile)
 		}
-		return r.a.StartTLS(r.ctx, p.certFile, p.keyFile)
+		return r.a.StartTLS(ctx, p.certFile, p.keyFile)
 	case pMTLS:
 		p, err := pki()
 		if err != nil {
 			r.discard = "pki: " + err.Error()
 			return err
 		}
-		return r.a.StartMTLS(r.ctx, p.serverCert, app.WithClientCAs(p.pool))
+		return r.a.StartMTLS(ctx, p.serverCert, app.WithClientCAs(p.pool))
 	}
-	return r.a.Start(r.ctx)
+	return r.a.Start(ctx)
 }
 
 // errInjected is what a failing OnStart / OnReload hook returns.
@@ -1200,7 +1256,12 @@ func (r *runner) build() error {
 	if sc.SlowLog {
 		r.logBuf.slow = 150 * time.Millisecond
 	}
-	obs := []app.ObservabilityOption{app.WithLogging(logging.WithJSONHandler(), logging.WithOutput(&r.logBuf))}
+	lopts := []logging.Option{logging.WithJSONHandler(), logging.WithOutput(&r.logBuf)}
+	if sc.Warm > 0 {
+		// a sampling configuration that samples nothing out (with the ticker that resets its counter)
+		lopts = append(lopts, logging.WithSampling(logging.SamplingConfig{Initial: 1 << 30, Thereafter: 0, Tick: time.Hour}))
+	}
+	obs := []app.ObservabilityOption{app.WithLogging(lopts...)}
 	switch {
 	case sc.Metrics:
 		mo := []metrics.Option{metrics.WithPrometheus(fmt.Sprintf(":%d", r.metPort), "/metrics"), metrics.WithStrictPort()}
@@ -1263,6 +1324,9 @@ func (r *runner) build() error {
 	// and "closed" are both decidable with a single connect attempt later on
 	{
 		a.OnStart(func(ctx context.Context) error {
+			if r.warm.Load() {
+				return nil
+			}
 			a.BaseLogger().Info(startupMarker)
 			r.span("boot")
 			dl := time.Now().Add(5 * time.Second)
@@ -1278,12 +1342,24 @@ func (r *runner) build() error {
 			return nil
 		})
 	}
+	if sc.Warm == 2 {
+		a.OnReady(func() {
+			if c := r.warmCancel.Load(); r.warm.Load() && c != nil {
+				(*c)()
+				r.warmReady.Add(1)
+			}
+		})
+	}
 	for i, b := range sc.Starts {
 		a.OnStart(func(ctx context.Context) error {
+			if r.warm.Load() {
+				return nil
+			}
 			if i == 0 && sc.lateReg() {
 				r.registerRest()
 			}
-			r.ev(fmt.Sprintf("s %d %s %s", i, r.probes2(), b2s(r.a.Router().Frozen())))
+			// (an App that has been started before keeps its router frozen: the probe says nothing then)
+			r.ev(fmt.Sprintf("s %d %s %s", i, r.probes2(), b2s(r.a.Router().Frozen() && sc.Warm == 0)))
 			var err error
 			switch b {
 			case bErr:
@@ -1311,6 +1387,10 @@ func (r *runner) build() error {
 		}
 		for i, b := range sc.Readies {
 			a.OnReady(func() {
+				if r.warm.Load() {
+					r.warmReady.Add(1)
+					return
+				}
 				r.ev(fmt.Sprintf("y %d %s %s", i, r.probes2(), b2s(r.a.Router().Frozen())))
 				if r.readyLeft.Add(-1) == 0 {
 					close(r.readyAll) // every OnReady hook has been entered
@@ -1329,6 +1409,9 @@ func (r *runner) build() error {
 		}
 		for i, b := range sc.Shuts {
 			a.OnShutdown(func(ctx context.Context) {
+				if r.warm.Load() {
+					return
+				}
 				live := ctx.Err() == nil
 				r.ev(fmt.Sprintf("h %d %s %s", i, r.probes2(), b2s(live)))
 				if sc.LateHup == 1 && i == len(sc.Shuts)-1 {
@@ -1351,12 +1434,18 @@ func (r *runner) build() error {
 		// instrumentation hook (not logged, registered last = runs first): the asynchronous OnReady hooks
 		// have all been entered (and have logged) before the first logged shutdown event
 		a.OnShutdown(func(ctx context.Context) {
+			if r.warm.Load() {
+				return
+			}
 			if !waitCh(r.readyAll, 5*time.Second) {
 				r.notes = append(r.notes, "ready hooks missing at shutdown")
 			}
 		})
 		for i, b := range sc.Stops {
 			a.OnStop(func() {
+				if r.warm.Load() {
+					return
+				}
 				r.ev(fmt.Sprintf("p %d %s", i, r.probes2()))
 				if sc.LateHup == 2 && i == 0 {
 					r.lateHup()
@@ -1441,6 +1530,13 @@ func (r *runner) run() obsT {
 	epoch0 := stallEpoch.Load()
 	if err := r.build(); err != nil {
 		return obsT{Discard: "app.New: " + err.Error()}
+	}
+
+	if sc.Warm > 0 {
+		r.warmup()
+		if r.discard != "" {
+			return obsT{Discard: r.discard}
+		}
 	}
 
 	var blocker *http.Server
